@@ -46,7 +46,7 @@ LEVELS = {
     },
     'C09': {
         'category': 'other',
-        'text': 'Deductive part (shared with C16): html scan reports only well-formed tag ranges that start with <, end with >, carry the name, in increasing order; match()/balanced_outward() return well-formed open/close ranges with close after open that strictly contain the position; the ranges of match() slice exactly to the tags (the open range is the text <name ...>, the close range the text </name> with the same name) and every attribute range lies inside the open tag; get_attributes() shifts every attribute range exactly once and the ranges slice to name and value lengths; all proved for every input. Innermost-ness against the document structure (equivalence with a second parser) is a bounded stand-in: documents generated from random trees with recorded ground truth, every position.',
+        'text': 'Deductive part (shared with C16): html scan reports only well-formed tag ranges that start with <, end with >, carry the name, in increasing order; match()/balanced_outward() return well-formed open/close ranges with close after open that strictly contain the position; the ranges of match() and of every entry of balanced_outward() slice exactly to the tags (the open range is the text <name ...>, the close range the text </name> with the same name) and every attribute range lies inside the open tag; get_attributes() shifts every attribute range exactly once and the ranges slice to name and value lengths; all proved for every input. Innermost-ness against the document structure (equivalence with a second parser) is a bounded stand-in: documents generated from random trees with recorded ground truth, every position.',
         'design_ref': 'DESIGN.md section 7 (C09)',
         'note': 'Trusted: pyvc encoding; is_special and ScannerOptions contracts (user supplied tables are opaque); callbacks do not mutate scanner-internal objects.',
         'technique': TECH + '; bounded stand-in: generated documents with ground truth (300 trees quick / 5000 thorough, all positions) + exhaustive tiny forests',
